@@ -23,12 +23,18 @@ Record reg_ok (g : gstate) (c : cell) : Prop := {
   ok_s_present : forall i, In i (keys (sr c)) <-> In (SN i) (anodes g);
   (* every F-node is registered with exactly the targets it was created with (gF: the abstract record, by value) *)
   ok_f_created : forall i, option_map f_targets (lookup i (fr c)) = lookup i (gF g);
+  (* ... also where the targets given were themselves augmented nodes (the code accepts them; gFa) *)
+  ok_fa_created : forall i, option_map f_atargets (lookup i (fr c)) = lookup i (gFa g);
   (* every S-node is registered with exactly the domain pair it was created with *)
   ok_s_created : forall i, lookup i (sr c) = lookup i (gS g);
   (* ... which are exactly its children *)
   ok_children : forall i ts, lookup i (gF g) = Some ts -> set_eq ts (children (FN i) (aedges g));
+  (* augmented children are among the augmented targets (equality holds until such a target node is removed,
+     which the property puts outside the claim: "removal of target nodes") *)
+  ok_achildren : forall i ats, lookup i (gFa g) = Some ats -> incl (achildren (FN i) (aaedges g)) ats;
   (* no edge leaves an augmented node that is not in the graph *)
-  ok_edges : forall a t, In (a, t) (aedges g) -> In a (anodes g)
+  ok_edges : forall a t, In (a, t) (aedges g) -> In a (anodes g);
+  ok_aedges : forall a t, In (a, t) (aaedges g) -> In a (anodes g)
 }.
 
 Definition registry_inv_stmt (k : cfg) : Prop :=
@@ -47,18 +53,27 @@ Definition created_stable_stmt (k : cfg) : Prop :=
     lookup i (gF g) = Some ts -> keeps l (FN i) ->
     lookup i (gF g') = Some ts.
 
+Definition created_stable_aug_stmt (k : cfg) : Prop :=
+  forall ops o l g g' i ats,
+    let w := run k ops in
+    nth_error (objs w) o = Some g ->
+    nth_error (objs (fst (step k w (On o l)))) o = Some g' ->
+    lookup i (gFa g) = Some ats -> keeps l (FN i) ->
+    lookup i (gFa g') = Some ats.
+
 (* ---- clause 2: a newly created augmented node never reuses the name of an existing node.
    (Ordinary nodes are [nat], augmented names are [aug]: a clash with an ordinary node is excluded by typing,
    which is the harness assumption "ordinary nodes are not named like augmented nodes".) *)
 Definition fresh_f_stmt (k : cfg) : Prop :=
-  forall ops o ts w',
+  forall ops o ts ats w',
     let w := run k ops in
-    step k w (On o (LAddF ts)) = (w', 0) ->
+    step k w (On o (LAddF ts ats)) = (w', 0) ->
     exists i g g',
       nth_error (objs w) o = Some g /\ nth_error (objs w') o = Some g' /\
       ~ In (FN i) (anodes g) /\ anodes g' = anodes g ++ [FN i] /\ onodes g' = onodes g /\
-      lookup i (gF g') = Some ts /\
-      option_map f_targets (lookup i (fr (cell_of w' g'))) = Some ts.
+      lookup i (gF g') = Some ts /\ lookup i (gFa g') = Some ats /\
+      option_map f_targets (lookup i (fr (cell_of w' g'))) = Some ts /\
+      option_map f_atargets (lookup i (fr (cell_of w' g'))) = Some ats.
 
 Definition fresh_s_stmt (k : cfg) : Prop :=
   forall ops o d1 d2 ch w',
